@@ -13,10 +13,12 @@ VEP   every event kind (SNV, deletion, two-base-span insertion, one-base-span in
           mutated chromosome; boundary / un-anchorable rows never give a record
         * the Lean Layer-S value `geneSeq (applyEvent chrom ev) g'`  (stream `vepspec`)
         * the real `parse_vep` CLI function on the same rows as a VEP tab file (tally and GVF
-          records compared with the direct calls).
+          records compared with the direct calls), per transcript AND per gene with every event
+          listed for all isoforms (one line per (event, transcript), several layouts / files).
 REDI  sites at the same position classes x threshold grids with values exactly on / one off each
       threshold, listed transcripts = those spanning the site (stream `redi`) or any transcripts
-      of the gene (stream `redi_any`, the design suspect), through the real
+      (stream `redi_any`, the design suspect) of EVERY gene containing the site — overlapping
+      genes on either strand are generated —, through the real
       `get_valid_subs`, `convert_to_variant_records` and the `parse_reditools` CLI function.
 """
 from __future__ import annotations
@@ -76,8 +78,52 @@ def close_ref(R):
         pass
 
 
+def add_overlapping(rng, a, case):
+    """genes overlapping an existing gene (same region, either strand, own start / end), whose
+    transcripts share exon pieces with the host gene or span the whole region: a genomic site
+    can then be exonic in transcripts of several genes"""
+    out = []
+    for gi, g in enumerate(a.genes):
+        out.append(g)
+        if rng.random() < 0.45:
+            continue
+        n = len(a.chroms[g.chrom])
+        lo = max(0, g.start + rng.choice([-4, -2, 0, 0, 1, 3, 6]))
+        hi = min(n, g.end + rng.choice([-5, -2, 0, 0, 1, 3]))
+        if hi - lo < 3:
+            continue
+        ver = f'.{rng.randint(1, 9)}' if a.style == 'GENCODE' else ''
+        g2 = c11.Gene()
+        g2.id = f'ENSG{case % 1000:03d}{50 + gi:04d}{ver}'
+        g2.name = f'GO{gi}'
+        g2.chrom, g2.strand, g2.biotype = g.chrom, rng.choice('+-'), 'lncRNA'
+        g2.start, g2.end = lo, hi
+        pool = sorted({(max(s_, lo), min(e_, hi)) for t in g.txs for s_, e_ in t.exons
+                       if min(e_, hi) - max(s_, lo) >= 1})
+        for ti in range(rng.choice([1, 1, 2])):
+            t = c11.Tx()
+            t.id = (g2.id.split('.')[0].replace('ENSG', 'ENST') + f'{ti}'
+                    + ('.2' if a.style == 'GENCODE' else ''))
+            t.gene, t.chrom, t.strand = g2.id, g2.chrom, g2.strand
+            exs, last = [], -1
+            if rng.random() < 0.7:
+                for s_, e_ in pool:
+                    if s_ > last and rng.random() < 0.75:
+                        exs.append((s_, e_))
+                        last = e_
+            if not exs:
+                x0 = rng.randint(lo, hi - 2)
+                exs = [(x0, rng.randint(x0 + 1, hi))] if rng.random() < 0.5 else [(lo, hi)]
+            t.exons = exs
+            t.order = rng.choice(['tx', 'genomic', 'rev'])
+            g2.txs.append(t)
+        out.append(g2)
+    a.genes = out
+
+
 def gen_ref(rng, case):
     a = c11.gen_annotation(rng, ngenes=rng.randint(1, 3), case=case)
+    add_overlapping(rng, a, case)
     for g in a.genes:
         for t in g.txs:
             if 'cds_start_NF' not in t.tags and rng.random() < 0.35:
@@ -270,6 +316,7 @@ def vep_case(ctx, case_id, a, R, rng, S, light=False):
         chrom = a.chroms[g.chrom]
         anno = R.full if (case_id + gi) % 2 == 0 else R.disk
         gseq = str(anno.genes[g.id].get_gene_sequence(R.genome[g.chrom]).seq)
+        gene_events = []
         for t in g.txs:
             nf = 'cds_start_NF' in t.tags
             real_nf = anno.transcripts[t.id].is_cds_start_nf()
@@ -360,6 +407,132 @@ def vep_case(ctx, case_id, a, R, rng, S, light=False):
             # ---- the CLI function on the same rows
             if (case_id + len(S['vep'])) % 3 == 0 or light:
                 cli_check(ctx, a, R, g, t, rows, direct, viol, rng)
+            gene_events.extend((s_, e_, al_) for _k, s_, e_, al_ in rows)
+        # ---- the CLI function on a VEP file that lists every event for ALL isoforms
+        if len(g.txs) >= 2:
+            cli_gene_check(ctx, a, R, g, gene_events, viol, rng)
+
+
+def vep_args(R, tmp, inputs, out_name, skip_failed):
+    args = argparse.Namespace()
+    args.command = 'parseVEP'
+    args.input_path = list(inputs)
+    args.index_dir = None
+    args.source = 'gSNP'
+    args.genome_fasta = Path(R.fa_path)
+    args.proteome_fasta = None
+    args.annotation_gtf = Path(R.gtf_path)
+    args.reference_source = None
+    args.output_path = Path(tmp) / out_name
+    args.quiet = True
+    args.skip_failed = skip_failed
+    return args
+
+
+def cli_gene_check(ctx, a, R, g, gene_events, viol, rng):
+    """VEP writes one line per (variant, transcript): every sampled event is listed for every
+    isoform of the gene (isoforms in a random order per event, lines grouped by event or by
+    transcript or shuffled, one or two input files).  The expectation is PER (event, transcript):
+    the direct conversion of that line, checked against the property predicates above."""
+    from moPepGen import cli, seqvar
+    events = sorted(set(gene_events))
+    rng.shuffle(events)
+    events = events[:ctx.n(60, 90)]
+    lines = []           # (tx, s, e, allele, direct outcome)
+    for s, e, al in events:
+        txs = list(g.txs)
+        rng.shuffle(txs)
+        for t in txs:
+            try:
+                r = mk_vep(g, t, s, e, al).convert_to_variant_record(R.full, R.genome)
+                out = canon_rec(r)
+            except Exception as ex:   # noqa
+                out = canon_exc(ex)
+            lines.append((t, s, e, al, out))
+    lines = [ln for ln in lines if not ln[4].startswith('ok:-')]
+    layout = rng.choice(['by_event', 'by_event', 'by_tx', 'shuffled'])
+    if layout == 'by_tx':
+        lines.sort(key=lambda ln: ln[0].id)
+    elif layout == 'shuffled':
+        rng.shuffle(lines)
+    mixed = sum(1 for ev in events
+                if len({ln[4].startswith('ok') for ln in lines if ln[1:4] == ev}) == 2)
+    ctx.count('vep_cli_gene', 'runs')
+    ctx.count('vep_cli_gene', 'lines', len(lines))
+    ctx.count('vep_cli_gene', 'events_accepted_for_some_isoforms_only', mixed)
+    tmp = tempfile.mkdtemp(prefix='c14g_')
+    try:
+        nfiles = rng.choice([1, 1, 2])
+        paths = []
+        cut = len(lines) // 2 if nfiles == 2 else len(lines)
+        for k, part in enumerate([lines[:cut], lines[cut:]][:nfiles]):
+            pth = Path(tmp) / f'in{k}.txt'
+            with open(pth, 'w') as fh:
+                fh.write('## VEP\n#Uploaded_variation\tLocation\tAllele\n')
+                for t, s, e, al, _o in part:
+                    fh.write(vep_line(g, t, s, e, al) + '\n')
+            paths.append(pth)
+        args = vep_args(R, tmp, paths, 'out.gvf', True)
+        msgs, exc = run_cli(cli.parse_vep, args)
+        outs = [ln[4] for ln in lines]
+        info = {'gene': g.id, 'strand': g.strand, 'gene_iv': [g.start, g.end], 'layout': layout,
+                'transcripts': [(t.id, t.exons, 'cds_start_NF' in t.tags) for t in g.txs],
+                'vep_lines': [(t.id, f'{g.chrom}:{s}-{e}', al, o)
+                              for t, s, e, al, o in lines][:60]}
+        if exc is not None:
+            viol('parse_vep (--skip-failed) raised on a multi-isoform VEP file',
+                 dict(info, exception=repr(exc)))
+            return
+        exp = {'total': len(outs), 'succeed': sum(o.startswith('ok') for o in outs),
+               'failed': sum(not o.startswith('ok') for o in outs),
+               'start': sum(o == 'reject:start-site' for o in outs),
+               'stop': sum(o == 'reject:stop-site' for o in outs)}
+        if exp['failed'] == 0:
+            exp.pop('start'), exp.pop('stop')
+        got = tally_from(msgs, {'total': 'Totally records read', 'succeed':
+                                'Records successfully processed', 'failed': 'Records failed',
+                                'start': 'Start codon mutation', 'stop': 'Stop codon mutation'})
+        want = sorted((t.id, o.rsplit(',', 1)[0]) for t, _s, _e, _a, o in lines
+                      if o.startswith('ok'))
+        have = []
+        if args.output_path.exists():
+            for r in seqvar.io.parse(str(args.output_path)):
+                have.append((r.attrs.get('TRANSCRIPT_ID'), canon_rec(r).rsplit(',', 1)[0]))
+                if r.location.seqname != g.id:
+                    viol('GVF record written by parse_vep has the wrong gene',
+                         dict(info, record=canon_rec(r)))
+        have.sort()
+        if have != want:
+            extra = [x for x in have if x not in want]
+            missing = [x for x in want if x not in have]
+            bad = extra[0] if extra else missing[0]
+            src = [(t.id, f'{g.chrom}:{s}-{e}', al, o) for t, s, e, al, o in lines
+                   if t.id == bad[0] and (o.rsplit(',', 1)[0] == bad[1] or not o.startswith('ok'))]
+            # one concrete line: rejected (or converted differently) for its own transcript,
+            # but written with the record another isoform's line of the same event produced
+            witness = None
+            for t, s, e, al, o in lines:
+                if witness is None and (t.id, o.rsplit(',', 1)[0]) not in have:
+                    others = [(t2.id, o2) for t2, s2, e2, al2, o2 in lines
+                              if (s2, e2, al2) == (s, e, al) and t2.id != t.id
+                              and (t.id, o2.rsplit(',', 1)[0]) in extra]
+                    if others or not extra:
+                        witness = {'transcript': t.id, 'location': f'{g.chrom}:{s}-{e}',
+                                   'allele': al, 'own_conversion': o,
+                                   'same_event_other_isoforms': others}
+            info['witness_line'] = witness
+            viol('parse_vep on a file listing each event for several isoforms: the records '
+                 'written for a transcript differ from the conversion of that transcript\'s own '
+                 'lines (boundary rejection / anchoring must be per (event, transcript))',
+                 dict(info, records_not_expected=extra[:10], records_missing=missing[:10],
+                      candidate_lines=src[:10]))
+        elif got != exp:
+            viol('parse_vep tally differs from the per-line results on a multi-isoform file',
+                 dict(info, tally=got, expected=exp))
+        else:
+            ctx.count('vep_cli_gene', 'lines_checked', len(lines))
+    finally:
+        shutil.rmtree(tmp, ignore_errors=True)
 
 
 def cli_check(ctx, a, R, g, t, rows, direct, viol, rng):
@@ -508,11 +681,19 @@ def redi_case(ctx, case_id, a, R, rng, S):
         rng.shuffle(ps)
         for p in ps[:ctx.n(10, 14)]:
             for any_listed in (False, True):
+                # transcripts of EVERY gene of the chromosome whose interval contains the site
+                # (overlapping genes, either strand), in a random order: (gene, transcript)
+                cands = [(gg, t) for gg in a.genes
+                         if gg.chrom == g.chrom and gg.start <= p - 1 < gg.end for t in gg.txs]
                 if any_listed:
-                    listed = [t for t in g.txs if rng.random() < 0.8]
+                    listed = [gt for gt in cands if rng.random() < 0.75]
                 else:
-                    listed = [t for t in g.txs
-                              if t.exons[0][0] <= p - 1 < t.exons[-1][1] and rng.random() < 0.9]
+                    listed = [gt for gt in cands
+                              if gt[1].exons[0][0] <= p - 1 < gt[1].exons[-1][1]
+                              and rng.random() < 0.9]
+                rng.shuffle(listed)
+                if len({gg.id for gg, _t in listed}) > 1:
+                    ctx.count('redi_any' if any_listed else 'redi', 'rows_listing_several_genes')
                 counts, subs, gcov, params = gen_site(rng, boundary=rng.random() < 0.6)
                 min_alt, fs, min_rna, min_dna = params
                 f = Fraction(fs)
@@ -522,11 +703,13 @@ def redi_case(ctx, case_id, a, R, rng, S):
                     region=g.chrom, position=p, reference=subs[0][0],
                     strand=1 if g.strand == '+' else 0, coverage_q=sum(bc), mean_quality=40.0,
                     base_count=list(bc), all_subs=list(subs), frequency=0.5, g_coverage_q=gcov,
-                    transcript_id=[(t.id, 'transcript') for t in listed])
+                    transcript_id=[(t.id, 'transcript') for _gg, t in listed])
                 sited = {'gene': g.id, 'strand': g.strand, 'gene_iv': [g.start, g.end],
                          'position': p, 'base_count': bc, 'subs': [''.join(x) for x in subs],
                          'gcov': gcov, 'min_alt': min_alt, 'min_freq': fs, 'min_rna': min_rna,
-                         'min_dna': min_dna, 'listed': [(t.id, t.exons) for t in listed],
+                         'min_dna': min_dna,
+                         'listed': [(t.id, t.exons, gg.id, gg.strand, [gg.start, gg.end])
+                                    for gg, t in listed],
                          'case': case_id}
                 # thresholds
                 try:
@@ -557,40 +740,51 @@ def redi_case(ctx, case_id, a, R, rng, S):
                 try:
                     rs = rec.convert_to_variant_records(anno, min_alt, float(fs), min_rna, min_dna)
                     got = [(t_i, int(r.location.start), r.ref, r.alt) for r in rs
-                           for t_i in [[t.id for t in listed].index(r.attrs['TRANSCRIPT_ID'])]]
+                           for t_i in [[t.id for _gg, t in listed].index(
+                               r.attrs['TRANSCRIPT_ID'])]]
                     out = 'ok:' + ','.join(f'{i}:{q}:{x}:{y}' for i, q, x, y in got)
                 except Exception as ex:   # noqa
                     rs = None
                     out = ('reject:out-of-gene' if type(ex) is ValueError and
                            str(ex).startswith('The position does not overlap') else
                            'crash:' + type(ex).__name__)
-                lst = ';'.join(f'{g.strand}|{g.start}-{g.end}|{c11.ivs(t.exons)}' for t in listed)
+                lst = ';'.join(f'{gg.strand}|{gg.start}-{gg.end}|{c11.ivs(t.exons)}'
+                               for gg, t in listed)
                 S[stream].append((f'C14\tredi\t{head}\t{lst}', out, sited))
                 # property predicate on the real records
                 if rs is not None and vs is not None:
-                    q = p - 1 - g.start if g.strand == '+' else g.end - 1 - (p - 1)
-                    want = [(i, q, x, y) for i, t in enumerate(listed) if exonic(t, p - 1)
+                    # gene coordinate of the site in EACH listed transcript's OWN gene
+                    qs = [p - 1 - gg.start if gg.strand == '+' else gg.end - 1 - (p - 1)
+                          for gg, _t in listed]
+                    want = [(i, qs[i], x, y) for i, (_gg, t) in enumerate(listed)
+                            if exonic(t, p - 1)
                             for x, y in spec_valid(counts, subs, gcov, params)]
                     if got != want:
                         extra = [r_ for r_ in got if r_ not in want]
                         missing = [r_ for r_ in want if r_ not in got]
                         sig = (not missing and bool(extra) and all(
-                            not (listed[i].exons[0][0] <= p - 1 < listed[i].exons[-1][1])
-                            and x_[1] == q for x_ in extra for i in [x_[0]]))
+                            not (listed[i][1].exons[0][0] <= p - 1 < listed[i][1].exons[-1][1])
+                            and x_[1] == qs[i] for x_ in extra for i in [x_[0]]))
                         viol('parseREDItools records differ from: one record per listed '
-                             'transcript in which the site is exonic, at the gene coordinate of '
-                             'the site' + (' (record emitted for a listed transcript whose span '
-                                           'does not contain the site)' if sig else ''),
+                             'transcript in which the site is exonic, at the coordinate of the '
+                             'site in that transcript\'s own gene'
+                             + (' (record emitted for a listed transcript whose span '
+                                'does not contain the site)' if sig else ''),
                              dict(sited, real=got, expected=want),
                              key=KF_REDI if sig else None)
                     else:
                         ctx.count(stream, 'position_checked')
+                    by_tx = {t.id: gg for gg, t in listed}
                     for r in rs:
+                        gg = by_tx[r.attrs['TRANSCRIPT_ID']]
                         if r.id != f'RES-{int(r.location.start) + 1}-{r.ref}-{r.alt}' or \
                                 r.attrs.get('GENOMIC_POSITION') != f'{g.chrom}:{p}' or \
-                                r.location.seqname != g.id:
-                            viol('id / GENOMIC_POSITION / gene of the REDItools record wrong',
-                                 dict(sited, id=r.id))
+                                r.location.seqname != gg.id or \
+                                r.attrs.get('STRAND') != (1 if gg.strand == '+' else -1):
+                            viol('id / GENOMIC_POSITION / gene / STRAND of the REDItools record '
+                                 'are not those of the listed transcript\'s own gene',
+                                 dict(sited, id=r.id, seqname=r.location.seqname,
+                                      transcript=r.attrs['TRANSCRIPT_ID']))
                 if not any_listed and listed:
                     table.append((g, p, bc, subs, gcov, listed, params, out))
     if table and case_id % 2 == 0:
@@ -622,8 +816,9 @@ def redi_cli(ctx, a, R, table, viol, rng):
                     '40.58', '[' + ', '.join(map(str, bc)) + ']',
                     ' '.join(x + y for x, y in subs), '0.50',
                     '-' if gcov is None else str(gcov), '20.00', '-', '-', '-',
-                    sep.join(['transcript'] * len(listed)), sep.join([g.id] * len(listed)),
-                    sep.join(f'{t.id}-transcript' for t in listed)]) + '\n')
+                    sep.join(['transcript'] * len(listed)),
+                    sep.join(gg.id for gg, _t in listed),
+                    sep.join(f'{t.id}-transcript' for _gg, t in listed)]) + '\n')
         args = argparse.Namespace()
         args.command = 'parseREDItools'
         args.source = 'RNAEditingSite'
@@ -642,7 +837,7 @@ def redi_cli(ctx, a, R, table, viol, rng):
         ctx.count('redi_cli', 'runs')
         ctx.count('redi_cli', 'rows', len(allrows))
         info = {'params': params, 'rows': [(g.id, p, bc, [''.join(s) for s in subs], gcov,
-                                            [t.id for t in listed])
+                                            [(t.id, gg.id) for gg, t in listed])
                                            for g, p, bc, subs, gcov, listed, _a, _b in allrows][:30]}
         if exc is not None:
             viol('parse_reditools raised on a well-formed table', dict(info, exception=repr(exc)))
@@ -652,8 +847,9 @@ def redi_cli(ctx, a, R, table, viol, rng):
         nonempty = 0
         for g, p, bc, subs, gcov, listed, _pr, _o in allrows:
             counts = dict(zip('ACGT', bc))
-            q = p - 1 - g.start if g.strand == '+' else g.end - 1 - (p - 1)
-            recs = [(g.id, t.id, q, x, y) for t in listed if exonic(t, p - 1)
+            recs = [(gg.id, t.id,
+                     p - 1 - gg.start if gg.strand == '+' else gg.end - 1 - (p - 1), x, y)
+                    for gg, t in listed if exonic(t, p - 1)
                     for x, y in spec_valid(counts, subs, gcov, params)]
             nonempty += bool(recs)
             want += recs
@@ -830,7 +1026,12 @@ def run(ctx: common.Ctx):
     sys.path.insert(0, common.REPO)
     ctx.coverage['rule'] = (
         'references from the C11 generator (both strands, 1-8 exons incl. 1-base exons / introns, '
-        '1-4 isoforms, gene padding 0-4, 35% extra cds_start_NF) loaded by the real readers; for '
+        '1-4 isoforms, gene padding 0-4, 35% extra cds_start_NF) plus, for ~55% of the genes, an '
+        'OVERLAPPING gene on either strand with its own start / end whose transcripts reuse exon '
+        'pieces of the host gene; loaded by the real readers; parse_vep is also run on files that '
+        'list every event for ALL isoforms of the gene (expectation per (event, transcript)); '
+        'REDItools rows list transcripts of every gene containing the site in random order '
+        '(position checked per (row, transcript) in that transcript\'s own gene); for '
         'every (gene, transcript): every position class (gene / transcript / exon first and last '
         'base +-1, outside the gene, intron middle, 3 random) x {SNV, 1-base and k-base deletion, '
         'two-base-span insertion, one-base-span insertion with the reference base first / last / '
@@ -905,7 +1106,7 @@ def replay(ctx, data):
             rec = REDItoolsParser.REDItoolsRecord(
                 anno.genes[case['gene']].chrom, case['position'], case['subs'][0][0], 1, 0, 40.0,
                 list(case['base_count']), [tuple(x) for x in case['subs']], 0.5, case['gcov'],
-                [(t, 'transcript') for t, _ex in case['listed']])
+                [(x[0], 'transcript') for x in case['listed']])
             rs = rec.convert_to_variant_records(anno, case['min_alt'], float(case['min_freq']),
                                                 case['min_rna'], case['min_dna'])
             print('real:', [(int(r.location.start), r.ref, r.alt, r.attrs['TRANSCRIPT_ID'])
